@@ -48,6 +48,9 @@ def vocabulary(facts, fname='f'):
         voc.setdefault(base + '_1', 'numbered_variant')
     voc.setdefault('break__2', 'numbered_variant')
     voc.setdefault('x_1', 'numbered_variant')
+    for r in facts.get('intro_sites', []):
+        if r[4] == 'hard':
+            voc.setdefault(r[2], 'fixed')          # every identifier written literally at a name-introducing site (tuple, dict, ...)
     voc.setdefault('do_return_01', 'digit_suffix')
     voc.setdefault('fscope_0', 'digit_suffix')
     return voc
@@ -283,9 +286,60 @@ def user_fn_facts(source, fname, lambda_name='lam'):
         # FunctionTransformer.visit_Lambda reserves the Lambda NODE's scope (its definition context), to which only
         # `read - bound` of the lambda is passed on: seen from there the lambda's own body is a nested scope
         read = read - s.bound
+    star, kw = call_shapes(fn)
     return {'name': lambda_name if is_lambda else fname, 'bound': sorted(v.bound_all), 'read': sorted(read),
             'readLocal': sorted(v.read_any - read), 'free': sorted(_free_names(source, fname, is_lambda)),
-            'idents': sorted(v.idents - {fname} | (v.idents & read))}
+            'idents': sorted(v.idents - {fname} | (v.idents & read)), 'starCalls': star, 'kwCalls': kw}
+
+
+def call_shapes(fn):
+    """(has a call with a *args argument, has a call with keyword / **kw arguments) anywhere in the function text:
+    call_trees.py lowers those through the bare builtins `tuple(...)` / `dict(...)`."""
+    star = kw = False
+    for n in ast.walk(fn):
+        if isinstance(n, ast.Call):
+            star = star or any(isinstance(a, ast.Starred) for a in n.args)
+            kw = kw or bool(n.keywords)
+    return star, kw
+
+
+def node_facts(fn, module_names):
+    """Name facts of an arbitrary FunctionDef node that is NOT converted (the /repo corpus): `free` = reads leaving the
+    function by the activity rules, `ns` = the module's top-level names (approximation of globals; no closure), block
+    variables approximated by the simple names stored inside if/while/for statements."""
+    v = _Facts()
+    s = v._function(copy.deepcopy(fn), False)
+    read = set(s.read)
+    star, kw = call_shapes(fn)
+    blocks = set()
+    for n in ast.walk(fn):
+        if isinstance(n, (ast.If, ast.While, ast.For)):
+            for m in ast.walk(n):
+                if isinstance(m, ast.Name) and isinstance(m.ctx, ast.Store):
+                    blocks.add(m.id)
+    return {'name': fn.name, 'bound': sorted(v.bound_all), 'read': sorted(read), 'readLocal': sorted(v.read_any - read),
+            'free': sorted(read - s.bound), 'idents': sorted(v.idents), 'starCalls': star, 'kwCalls': kw,
+            'blockVarRoots': sorted(blocks), 'ns': sorted(module_names)}
+
+
+def block_var_roots(final_source):
+    """Root names of the `symbol_names` of every lowered if/while/for statement in the generated code."""
+    out = set()
+    if not final_source:
+        return []
+    try:
+        tree = ast.parse(final_source)
+    except SyntaxError:
+        return []
+    pos = {'if_stmt': 5, 'for_stmt': 5, 'while_stmt': 4}
+    for n in ast.walk(tree):
+        if isinstance(n, ast.Call) and isinstance(n.func, ast.Attribute) and n.func.attr in pos and len(n.args) > pos[n.func.attr]:
+            t = n.args[pos[n.func.attr]]
+            if isinstance(t, ast.Tuple):
+                for e in t.elts:
+                    if isinstance(e, ast.Constant) and isinstance(e.value, str):
+                        out.add(e.value.split('.')[0].split('[')[0])
+    return sorted(out)
 
 
 # =================================================================================================
@@ -392,12 +446,13 @@ ROLES = ['assigned_only', 'assigned_only_in_loop', 'read_only_global', 'paramete
          'closure_nonlocal', 'nested_function_called', 'nested_function_uncalled', 'loop_target_read', 'loop_target_unread',
          'nested_parameter', 'lambda_parameter', 'comprehension_target', 'nonlocal_in_nested', 'with_target', 'import_alias',
          'function_name', 'late_global', 'loop_var_modified', 'two_locals_numbered', 'local_in_nested_def_loop',
-         'attribute_name', 'keyword_name']
+         'attribute_name', 'keyword_name', 'bound_with_star_call', 'bound_with_keyword_call', 'parameter_with_star_and_keyword_call']
 
 # roles in which the word is read in the function's own blocks: the hypothesis of C11_disjoint_partial holds for it
 READ_ROLES = {'read_only_global', 'parameter', 'local', 'global_var', 'closure_free_var', 'closure_nonlocal',
               'nested_function_called', 'loop_target_read', 'loop_var_modified', 'two_locals_numbered',
-              'local_in_nested_def_loop', 'attribute_name', 'keyword_name'}
+              'local_in_nested_def_loop', 'attribute_name', 'keyword_name', 'bound_with_star_call', 'bound_with_keyword_call',
+              'parameter_with_star_and_keyword_call'}
 
 
 def make_variant(prog_json, role, word, rng):
@@ -408,8 +463,11 @@ def make_variant(prog_json, role, word, rng):
     fn, _ = _find_function(tree, fname)
     if fn is None:
         return None
-    used = {n.id for n in ast.walk(tree) if isinstance(n, ast.Name)} | {a.arg for a in ast.walk(tree) if isinstance(a, ast.arg)} \
-        | {n.name for n in ast.walk(tree) if isinstance(n, (ast.FunctionDef, ast.ClassDef))}
+    # names the word must not collide with: every identifier of the function itself and every name the module binds
+    # (not names the prelude merely reads, such as the builtins tuple / dict)
+    used = {n.id for n in ast.walk(fn) if isinstance(n, ast.Name)} | {a.arg for a in ast.walk(tree) if isinstance(a, ast.arg)} \
+        | {n.name for n in ast.walk(tree) if isinstance(n, (ast.FunctionDef, ast.ClassDef))} \
+        | {n.id for n in ast.walk(tree) if isinstance(n, ast.Name) and isinstance(n.ctx, ast.Store)}
     if word in used:
         return None
     case = {'fname': fname, 'inputs': prog_json['inputs'], 'decisions': prog_json['decisions'], 'recursive': True,
@@ -490,6 +548,19 @@ def make_variant(prog_json, role, word, rng):
                                % (word, word, word)), rng)
     elif role == 'keyword_name':
         ok = _insert(fn, _stmt("tr('kw', dict(%s=2)['%s'])" % (word, word)), rng)
+    elif role == 'bound_with_star_call':
+        # call_trees.py lowers f(a, *r) to (a,) + tuple(r): the builtin is referenced by bare name
+        ok = _insert(fn, _stmt("kq_t = (1, 2)\n%s = 3\ntr('sc', %s, *kq_t)" % (word, word)), rng)
+    elif role == 'bound_with_keyword_call':
+        # ... and f(k=v) to dict(k=v)
+        ok = _insert(fn, _stmt("%s = 3\nkq_c = cm(tag=%s)\ntr('kc', kq_c.tag)" % (word, word)), rng)
+    elif role == 'parameter_with_star_and_keyword_call':
+        if not params:
+            return None
+        old = params[rng.randrange(len(params))]
+        _Rename(old, word).visit(fn)
+        ok = _insert(fn, _stmt("kq_t = (1, 2)\nkq_c = cm(tag=7)\ntr('sk', kq_c.tag, *kq_t)"), rng)
+        probe = True
     elif role == 'nested_parameter':
         ok = _insert(fn, _stmt("def kq_g(%s):\n    return tr('np', %s)\ntr('npc', kq_g(3))" % (word, word)), rng)
     elif role == 'lambda_parameter':
@@ -644,6 +715,7 @@ def eval_case(ws, case, max_runs=12):
                     if part and part[0] == 'referenced':
                         res['body_referenced'] = [q for q in part[1:] if q.isidentifier()]
         res['final_source'] = tr.final_source
+        res['block_var_roots'] = block_var_roots(tr.final_source)
         if tr.error is not None:
             res['convert_error'] = '%s: %s' % (type(tr.error).__name__, str(tr.error)[:300])
             return res
